@@ -326,6 +326,10 @@ var repos = []string{"foo", "bar"}
 func genScript(t *rapid.T) Script {
 	var s Script
 	names := []string{"reg1.test", "reg1.test:5001", "reg2.test"}
+	if rapid.IntRange(0, 3).Draw(t, "portFamily") == 0 {
+		// one machine, three registries: the ports differ in digits that also occur in 443 and 80
+		names = []string{"reg1.test:4443", "reg1.test:3443", "reg1.test:8080"}
+	}
 	nh := rapid.IntRange(1, 3).Draw(t, "nhosts")
 	for i := 0; i < nh; i++ {
 		h := aw.HostSpec{Name: names[i], Service: fmt.Sprintf("svc%d", i), Realm: rapid.SampledFrom([]string{"auth.test", "auth.test", fmt.Sprintf("auth%d.test", i)}).Draw(t, "realm")}
